@@ -6,9 +6,13 @@ import os
 import sys
 
 HERE = os.path.dirname(os.path.abspath(__file__))
+# checks the lead has run on the unchanged tree and against mutants; only these are claimed in MANIFEST.json
+READY = ['C01', 'C17']
 CHECKS = {}
 for f in sorted(glob.glob(os.path.join(HERE, 'props', 'C*.py'))):
     pid = os.path.basename(f)[:-3]
+    if pid not in READY:
+        continue
     try:
         m = importlib.import_module(f'harness.props.{pid}')
     except Exception as e:  # a broken module is simply not claimed
